@@ -189,6 +189,8 @@ class Data(object):
         There doesn't seem to be an easy way to avoid this.
         """
         self._timesI = self._get_common_indices(self._inputs, verif.axis.Time(), self.times)
+        if len(self.times) == 0:
+            verif.util.error("No valid times selected")
 
         # Compute axis values
         self.axis_cache = dict()
